@@ -27,11 +27,18 @@ func stringTable(c *Ctx, rule, rel, typ string) map[string]string {
 	}
 	ast.Inspect(f.Body, func(m ast.Node) bool {
 		cc, ok := m.(*ast.CaseClause)
-		if !ok || len(cc.Body) != 1 {
+		if !ok {
 			return true
 		}
-		rs, ok := cc.Body[0].(*ast.ReturnStmt)
-		if !ok || len(rs.Results) != 1 {
+		var rs *ast.ReturnStmt
+		nret := 0
+		for _, st := range cc.Body {
+			if r, isR := st.(*ast.ReturnStmt); isR {
+				rs = r
+				nret++
+			}
+		}
+		if nret != 1 || len(rs.Results) != 1 {
 			return true
 		}
 		v, isC := constStr(f.Info(), rs.Results[0])
